@@ -805,7 +805,9 @@ func gen(r *rng.R, tier string) fw.Case {
 // shrinkCase: drop Get lines (never the loads), drop paths of a Get, drop loaded leaves.
 func shrinkCase(c fw.Case) []fw.Case {
 	var out []fw.Case
-	mkc := func(s []string) { out = append(out, fw.Case{Script: s, Tags: c.Tags, Nontrivial: true, Origin: c.Origin}) }
+	mkc := func(s []string) {
+		out = append(out, fw.Case{Script: s, Tags: c.Tags, Nontrivial: true, Origin: c.Origin})
+	}
 	for i, ln := range c.Script {
 		if strings.HasPrefix(ln, "nbget.get") {
 			mkc(append(append([]string{}, c.Script[:i]...), c.Script[i+1:]...))
